@@ -7,11 +7,12 @@ package main
 
 import (
 	"context"
-	"hash/fnv"
 	"encoding/hex"
 	"encoding/json"
 	"flag"
 	"fmt"
+	"hash"
+	"hash/fnv"
 	"net"
 	"os"
 	"path/filepath"
@@ -64,7 +65,7 @@ type Spec struct {
 
 // Op is one edit of a batch.
 type Op struct {
-	Op   string `json:"op"` // write replace replacekeep chmod create remove rename touch swapdir
+	Op   string `json:"op"` // write writeolder replace replacekeep chmod create remove rename touch swapdir
 	Path HS     `json:"p"`
 	To   HS     `json:"to,omitempty"`
 	Data HS     `json:"d,omitempty"`
@@ -93,6 +94,10 @@ type Case struct {
 	Patterns []string `json:"patterns"`
 	Runs     []Run    `json:"runs"`
 	Batches  []Batch  `json:"batches,omitempty"`
+	// Abort: before the recorded scans, a scan of another root is cancelled
+	// while a large file is being hashed with the hasher the case then keeps
+	// using (an endpoint reuses one hasher for all its scans).
+	Abort bool `json:"abort,omitempty"`
 }
 
 var fixed16 bool
@@ -206,6 +211,19 @@ func (b *builder) apply(root string, op Op) error {
 		return syscall.Chmod(p, op.Mode)
 	case "touch":
 		b.stamp(p)
+	case "writeolder": // rewrite in place (same inode, same size), mtime moved into the past
+		var st syscall.Stat_t
+		if err := syscall.Lstat(p, &st); err != nil {
+			return err
+		}
+		f, err := os.OpenFile(p, os.O_WRONLY, 0)
+		if err != nil {
+			return err
+		}
+		f.Write([]byte(op.Data))
+		f.Close()
+		t := time.Unix(st.Mtim.Sec-int64(1000+len(op.Data)), st.Mtim.Nsec)
+		return os.Chtimes(p, t, t)
 	case "create":
 		return b.create(filepath.Dir(p), &Spec{Kind: op.Node.Kind, Name: HS(filepath.Base(p)), Mode: op.Node.Mode,
 			Data: op.Node.Data, Target: op.Node.Target, Kids: op.Node.Kids})
@@ -228,9 +246,9 @@ func (b *builder) apply(root string, op Op) error {
 
 type walked struct {
 	coq     string
-	digests map[string]string   // content -> digest
-	paths   map[[2]string]bool  // (relative path, "d"/"f") of every object with a queryable name
-	objs    []walkedObj         // for edit generation
+	digests map[string]string  // content -> digest
+	paths   map[[2]string]bool // (relative path, "d"/"f") of every object with a queryable name
+	objs    []walkedObj        // for edit generation
 	nodes   int
 	kinds   map[string]int
 }
@@ -410,14 +428,57 @@ func (r result) coq() string {
 		b2s(s.DecomposesUnicode), s.Directories, s.Files, s.SymbolicLinks, s.TotalFileSize, cacheCoq(r.c), icacheCoq(r.ic))
 }
 
-func scan(root string, base *result, recheck map[string]bool, ign ignore.Ignorer, r Run) result {
+// cancellingHasher cancels a context as soon as data flows into the hasher.
+type cancellingHasher struct {
+	hash.Hash
+	cancel context.CancelFunc
+}
+
+func (h *cancellingHasher) Write(data []byte) (int, error) {
+	h.cancel()
+	return h.Hash.Write(data)
+}
+
+var bigRoot string
+
+// abortedScan runs core.Scan on a root holding one large sparse file and
+// cancels it while that file is being hashed with the given hasher. The
+// hasher is left with whatever state the implementation leaves it in.
+func abortedScan(hasher hash.Hash, ign ignore.Ignorer) error {
+	if bigRoot == "" {
+		d, err := os.MkdirTemp("", "verif-big-")
+		if err != nil {
+			return err
+		}
+		f, err := os.Create(filepath.Join(d, "big"))
+		if err != nil {
+			return err
+		}
+		// larger than scannerCopyBufferSize*scannerCopyPreemptionInterval (32 MiB)
+		if err := f.Truncate(2*32*1024*1024 + 17); err != nil {
+			return err
+		}
+		f.Close()
+		bigRoot = d
+	}
+	ctx, cancel := context.WithCancel(context.Background())
+	defer cancel()
+	_, _, _, err := core.Scan(ctx, bigRoot, nil, nil, &cancellingHasher{hasher, cancel}, nil, ign, nil,
+		behavior.ProbeMode_ProbeModeProbe, core.SymbolicLinkMode_SymbolicLinkModePortable, core.PermissionsMode_PermissionsModePortable)
+	if err != core.ErrScanCancelled {
+		return fmt.Errorf("the scan that was to be cancelled while hashing returned: %v", err)
+	}
+	return nil
+}
+
+func scan(hasher hash.Hash, root string, base *result, recheck map[string]bool, ign ignore.Ignorer, r Run) result {
 	var baseline *core.Snapshot
 	var cache *core.Cache
 	var icache ignore.IgnoreCache
 	if base != nil {
 		baseline, cache, icache = base.snap, base.c, base.ic
 	}
-	s, c, ic, err := core.Scan(context.Background(), root, baseline, recheck, fnv.New32a(), cache, ign, icache,
+	s, c, ic, err := core.Scan(context.Background(), root, baseline, recheck, hasher, cache, ign, icache,
 		behavior.ProbeMode_ProbeModeProbe, core.SymbolicLinkMode(r.Sym), core.PermissionsMode(r.Perm))
 	return result{s, c, ic, err}
 }
@@ -516,7 +577,14 @@ func runCase(c Case) (out outcome, err error) {
 	if err != nil {
 		return out, err
 	}
+	hasher := fnv.New32a()
 	tags := []string{"syntax:" + c.Syntax}
+	if c.Abort {
+		if err := abortedScan(hasher, ign); err != nil {
+			return out, err
+		}
+		tags = append(tags, "hasher:after-aborted-scan")
+	}
 	for k, v := range w0.kinds {
 		if v > 0 {
 			tags = append(tags, "has:"+k)
@@ -531,7 +599,7 @@ func runCase(c Case) (out outcome, err error) {
 		runs := make([]string, 0, len(c.Runs))
 		for _, r := range c.Runs {
 			setBehavior(r)
-			res := scan(root, nil, nil, ign, r)
+			res := scan(hasher, root, nil, nil, ign, r)
 			pres, dec := !r.NoPreserve, false
 			if res.snap != nil && res.err == nil && res.snap.Content != nil {
 				pres, dec = res.snap.PreservesExecutability, res.snap.DecomposesUnicode
@@ -558,7 +626,7 @@ func runCase(c Case) (out outcome, err error) {
 	// C13
 	r := c.Runs[0]
 	setBehavior(r)
-	res0 := scan(root, nil, nil, ign, r)
+	res0 := scan(hasher, root, nil, nil, ign, r)
 	pres, dec := !r.NoPreserve, false
 	if res0.snap != nil && res0.err == nil && res0.snap.Content != nil {
 		pres, dec = res0.snap.PreservesExecutability, res0.snap.DecomposesUnicode
@@ -586,11 +654,11 @@ func runCase(c Case) (out outcome, err error) {
 		}
 		var acc result
 		if prev.err == nil && prev.snap != nil {
-			acc = scan(root, &prev, recheck, ign, r)
+			acc = scan(hasher, root, &prev, recheck, ign, r)
 		} else {
-			acc = scan(root, nil, nil, ign, r)
+			acc = scan(hasher, root, nil, nil, ign, r)
 		}
-		full := scan(root, nil, nil, ign, r)
+		full := scan(hasher, root, nil, nil, ign, r)
 		steps = append(steps, fmt.Sprintf("(%s, %s, %s, %s)", w.coq, hx.List(rc), acc.coq(), full.coq()))
 		if acc.err != nil {
 			tags = append(tags, "accel:error")
@@ -833,7 +901,15 @@ func (g *gen) batch(root string) (Batch, error) {
 				continue
 			}
 			touched[p] = true
-			bt.Ops = append(bt.Ops, Op{Op: "touch", Path: HS(p)})
+			old, err := os.ReadFile(rel(root, HS(p)))
+			if err == nil && len(old) > 0 && g.r.Intn(2) == 0 {
+				// same inode, same size, other content, OLDER mtime (cp -p, rsync -t, tar)
+				nd := append([]byte{}, old...)
+				nd[g.r.Intn(len(nd))] ^= 0x33
+				bt.Ops = append(bt.Ops, Op{Op: "writeolder", Path: HS(p), Data: HS(nd)})
+			} else {
+				bt.Ops = append(bt.Ops, Op{Op: "touch", Path: HS(p)})
+			}
 			bt.Recheck = append(bt.Recheck, HS(p))
 		case x < 8 && len(dirs) > 0: // create
 			d := g.pick(dirs)
@@ -923,7 +999,7 @@ func (g *gen) batch(root string) (Batch, error) {
 // genC13 builds the case incrementally on a scratch copy of the tree so that
 // every batch refers to objects that exist when it is applied.
 func (g *gen) genC13() (Case, error) {
-	c := Case{Prop: "C13"}
+	c := Case{Prop: "C13", Abort: g.r.Intn(8) == 0}
 	for c.Root == nil || c.Root.Kind != "dir" {
 		c.Root = g.tree()
 	}
@@ -972,9 +1048,9 @@ func main() {
 	}
 	w := hx.NewWriter(cfg, header, caseType, failFn, per)
 	if *prop == "C12" {
-		w.Rule = "a case = one real directory tree (independent lstat/readlink/read walk), the digest and ignore tables, and the results of core.Scan under 3 configurations drawn from 3 symlink modes x 2 permissions modes (one of them with executability preservation forced off through the behaviour cache); distinct = distinct Coq terms; non-trivial = at least 4 filesystem objects"
+		w.Rule = "a case = one real directory tree (independent lstat/readlink/read walk), the digest and ignore tables, and the results of core.Scan under 3 configurations drawn from 3 symlink modes x 2 permissions modes (one of them with executability preservation forced off through the behaviour cache); all scans of a case share one hasher, and in a quarter of the cases a scan of another root is first cancelled while that hasher is hashing a 64 MiB sparse file; distinct = distinct Coq terms; non-trivial = at least 4 filesystem objects"
 	} else {
-		w.Rule = "a case = one real directory tree, one configuration, 1-3 random edit batches (write/replace/replace keeping size and mtime/chmod/touch/create/remove/retype/rename/empty-directory swap) each followed by core.Scan with the previous result as baseline + recheck paths and by a fresh core.Scan; non-trivial = at least one batch and at least 4 objects"
+		w.Rule = "a case = one real directory tree, one configuration, 1-3 random edit batches (write/same-size rewrite with an older mtime/replace/replace keeping size and mtime/chmod/touch/create/remove/retype/rename/empty-directory swap) each followed by core.Scan with the previous result as baseline + recheck paths and by a fresh core.Scan; non-trivial = at least one batch and at least 4 objects"
 	}
 	add := func(c Case, origin string) {
 		if w.Aborted {
@@ -1023,7 +1099,7 @@ func main() {
 		if *prop == "C12" {
 			all := allRuns()
 			runs := []Run{all[g.r.Intn(6)], all[g.r.Intn(6)], all[6+g.r.Intn(2)]}
-			c := Case{Prop: "C12", Root: g.tree(), Runs: runs}
+			c := Case{Prop: "C12", Root: g.tree(), Runs: runs, Abort: g.r.Intn(4) == 0}
 			c.Syntax, c.Patterns = g.ignores()
 			add(c, "random")
 		} else {
@@ -1036,5 +1112,8 @@ func main() {
 		}
 	}
 	w.Close()
+	if bigRoot != "" {
+		os.RemoveAll(bigRoot)
+	}
 	fmt.Printf("cases %d\n", w.Total())
 }
